@@ -3,6 +3,7 @@
 From Coq Require Import List NArith Bool Arith String.
 Import ListNotations.
 Require Import Reader ReaderLemmas ReaderBound.
+Require ByteBound.
 
 (* KIND C18_refill_at_most_one_block : U *)
 (* for EVERY reader state, schedule and stream content: one refill moves the stream pointer forward by at most 4096 units *)
@@ -39,6 +40,26 @@ Theorem C18_text_accounting : forall f n r r',
 Proof. intros f n r r' H1 H2 H3 H4. exact (proj1 (update_loop_text_bound f n r r' H1 H2 H3 H4)). Qed.
 Eval vm_compute in "ASSUME:C18_text_accounting"%string. Print Assumptions C18_text_accounting.
 
-(* PARTIAL: the byte-stream version of the demand bound (bytes vs characters), token_lookahead_bounded and
+(* KIND C18_byte_demand_bound : U *)
+(* byte streams in any of the three encodings, the whole refill loop, any read schedule and content: a demand for n characters when
+   the buffer holds fewer takes fewer than 4 * (n - buffered) + 4096 + 3 bytes from the stream (four bytes is the longest character,
+   one block the unit of reading, three bytes the longest undecoded tail carried over); nothing when the buffer suffices *)
+Theorem C18_byte_demand_bound : forall f n r r' carry e,
+  (exists s, strm r = Some s /\ is_text s = false) -> rawb r = RawBytes carry -> List.length carry < 4 -> encd r = Some e -> eof r = false ->
+  update_loop f n r = Ok r' -> eof r' = false ->
+  (n <= List.length (buffer r) -> stream_pointer r' = stream_pointer r) /\
+  (List.length (buffer r) < n -> stream_pointer r' - stream_pointer r < 4 * (n - List.length (buffer r)) + 4096 + 3).
+Proof. exact ByteBound.byte_demand_reads_less_than_four_per_character_plus_a_block. Qed.
+Eval vm_compute in "ASSUME:C18_byte_demand_bound"%string. Print Assumptions C18_byte_demand_bound.
+(* KIND C18_decode_consumes_at_most_four_bytes_per_character : U *)
+(* the incremental decoders (UTF-8, UTF-16 LE/BE): a successful call consumed at most four bytes per character it returned and, when it
+   was not the final call, left fewer than four bytes undecoded *)
+Theorem C18_decode_consumes_at_most_four_bytes_per_character : forall fuel e fin bs off acc d c, decode fuel e fin bs off acc = DecOk d c ->
+  off <= c /\ List.length acc <= List.length d /\ c - off <= 4 * (List.length d - List.length acc) /\ c - off <= List.length bs /\
+  (List.length bs < fuel -> fin = false -> List.length bs - (c - off) < 4).
+Proof. exact ByteBound.decode_bounds. Qed.
+Eval vm_compute in "ASSUME:C18_decode_consumes_at_most_four_bytes_per_character"%string. Print Assumptions C18_decode_consumes_at_most_four_bytes_per_character.
+
+(* PARTIAL: token_lookahead_bounded and
    lazy_prefix_determinism are not proved; decided by the reader correspondence (stream pointer and read() log after every demand) and the direct run that
    records the stream offset each time a document is delivered.  Generator finalisation (dispose on close) is CPython behaviour, observed only. *)
